@@ -283,9 +283,14 @@ class PDFXRefStream(PDFBaseXRef):
             widths = stream["W"]
         except KeyError as e:
             raise PDFNoValidXRef(f"Missing entry in cross-reference stream: {e}")
-        index_array = stream.get("Index", (0, size))
+        index_array = list_value(stream.get("Index", (0, size)))
         if len(index_array) % 2 != 0:
             raise PDFSyntaxError("Invalid index number")
+        widths = list_value(widths)
+        if len(widths) != 3 or not all(
+            isinstance(v, int) for v in itertools.chain(index_array, widths)
+        ):
+            raise PDFNoValidXRef("Invalid /Size, /Index or /W in cross-reference stream")
         self.ranges.extend(cast(Iterator[Tuple[int, int]], choplist(2, index_array)))
         (self.fl1, self.fl2, self.fl3) = widths
         assert self.fl1 is not None and self.fl2 is not None and self.fl3 is not None
